@@ -3,7 +3,7 @@ from __future__ import annotations
 import ast
 import z3
 from .values import *
-from .symexec import Unsupported, NeedFork, Raised, Obligation, Path, Contract, parse_expr
+from .symexec import Unsupported, NeedFork, Raised, Obligation, Path, Contract, parse_expr, on_raise_clauses
 
 MAX_INLINE_DEPTH = 12
 
@@ -32,6 +32,8 @@ class CallMixin:
                 a = self.truth(self.ev(e.args[0], p, module), p)
                 if z3.is_false(z3.simplify(a)):
                     return VBool(True)
+                if not z3.is_true(z3.simplify(a)) and self.implied(p, z3.Not(a)):
+                    return VBool(True)          # antecedent excluded by the facts of this path: the consequent may not even be defined
                 b = self.truth(self.ev(e.args[1], p, module), p)
                 return VBool(z3.Implies(a, b))
             if f.id == "ite":
@@ -692,11 +694,13 @@ class CallMixin:
         self.havoc_modifies(c, bound, p, exceptional=(k != 0))
         if k != 0:
             p.pc.append(conds[k - 1])
-            qpost = self.spec_path(p, dict(bound), old=pre_env)
-            for cl in c.on_raise:
-                p.pc.append(self.eval_clause(cl, qpost, fi.module))
             exc = VExc(outcomes[k], {"from_contract": c.key})
+            env_x = dict(bound)
+            env_x["exc"] = exc
+            qpost = self.spec_path(p, env_x, old=pre_env)
             self.exc_fields_from_contract(exc, c, qpost, fi.module, p)
+            for cl in on_raise_clauses(c, outcomes[k], self.prog):
+                p.pc.append(self.eval_clause(cl, qpost, fi.module))
             raise Raised(exc)
         # normal return
         rty = c.result or self.ann_text(fi.node.returns)
@@ -803,11 +807,25 @@ def _p_subset(eng, args, p):
     return VBool(z3.ForAll([x], z3.Implies(z3.Select(args[0].t, x), z3.Select(args[1].t, x))))
 
 
+def _p_nil_obj(eng, args, p):
+    return VList(t=z3.Empty(SeqObj), elem="obj")
+
+
+def _p_cons_obj(eng, args, p):
+    x = args[0]
+    xt = x.t if isinstance(x, VSym) else eng.reify_cached(x, p).t
+    return VList(t=z3.Concat(z3.Unit(xt), eng.list_term(args[1])), elem="obj")
+
+
+def _p_cat_obj(eng, args, p):
+    return VList(t=z3.Concat(eng.list_term(args[0]), eng.list_term(args[1])), elem="obj")
+
+
 def _p_ids_below(eng, args, p):
     x = z3.Int("x!ib")
     return VBool(z3.ForAll([x], z3.Implies(z3.Select(args[0].t, x), z3.And(x >= 1, x < eng.as_int(args[1])))))
 
 
-SPEC_PRIMS = {"ids_below": _p_ids_below, "cat": _p_cat, "seq1": _p_seq1, "empty": _p_empty, "take": _p_take, "drop": _p_drop,
+SPEC_PRIMS = {"ids_below": _p_ids_below, "nil_obj": _p_nil_obj, "cons_obj": _p_cons_obj, "cat_obj": _p_cat_obj, "cat": _p_cat, "seq1": _p_seq1, "empty": _p_empty, "take": _p_take, "drop": _p_drop,
               "is_bytes": _p_is_bytes, "empty_set": _p_empty_set, "set_add": _p_set_add, "set_del": _p_set_del,
               "subset": _p_subset}
